@@ -206,6 +206,7 @@ pub struct RunOut {
 pub fn run_in_world<T>(world: World, f: impl FnOnce() -> T) -> (Option<T>, Option<Crash>, World, AllocStats) {
     let rc = Rc::new(RefCell::new(world));
     gamedig::verif_hook::install(Box::new(SimBackend(rc.clone())));
+    verif_net::install(Box::new(SimBackend(rc.clone())));
     LAST_PANIC.with(|p| *p.borrow_mut() = None);
     alloc::begin();
     IN_RUN.with(|c| c.set(true));
@@ -213,6 +214,7 @@ pub fn run_in_world<T>(world: World, f: impl FnOnce() -> T) -> (Option<T>, Optio
     IN_RUN.with(|c| c.set(false));
     let stats = alloc::end();
     drop(gamedig::verif_hook::uninstall());
+    drop(verif_net::uninstall());
     let world = match Rc::try_unwrap(rc) {
         Ok(cell) => cell.into_inner(),
         Err(_) => panic!("GDSIM: world still shared after the run"),
